@@ -7,6 +7,7 @@ package obs
 import (
 	"errors"
 	"fmt"
+	"reflect"
 	"strings"
 	"sync/atomic"
 
@@ -167,15 +168,18 @@ func Build(a *model.Claims) (psatoken.IClaims, error) {
 		v := *p
 		return &v
 	}
-	var cid *int32
-	if a.ClientID != nil {
-		v := *a.ClientID
-		cid = &v
-	}
-	var lc *uint16
-	if a.Lifecycle != nil {
-		v := *a.Lifecycle
-		lc = &v
+	// numeric claims are assigned by reflection (see SetNumField)
+	setNums := func(x psatoken.IClaims) error {
+		if a.ClientID != nil && !SetNumField(x, "ClientID", int64(*a.ClientID)) {
+			return fmt.Errorf("cannot assign client id")
+		}
+		if a.Lifecycle != nil && !SetNumField(x, "SecurityLifeCycle", int64(*a.Lifecycle)) {
+			return fmt.Errorf("cannot assign life cycle")
+		}
+		if a.P == 1 && a.NoMeas != nil && !SetNumField(x, "NoSwMeasurements", int64(*a.NoMeas)) {
+			return fmt.Errorf("cannot assign the no-measurements flag")
+		}
+		return nil
 	}
 	// every other component-less object is built the way a zero-value struct
 	// literal is: with NO container at all (a nil interface) rather than an
@@ -186,16 +190,15 @@ func Build(a *model.Claims) (psatoken.IClaims, error) {
 	}
 	if a.P == 1 {
 		c := &psatoken.P1Claims{
-			Profile: cs(a.Profile), ClientID: cid, SecurityLifeCycle: lc, ImplID: cb(a.ImplID), BootSeed: cb(a.BootSeed),
+			Profile: cs(a.Profile), ImplID: cb(a.ImplID), BootSeed: cb(a.BootSeed),
 			CertificationReference: cs(a.CertRef), SwComponents: ct, InstID: cb(a.InstID), VSI: cs(a.VSI),
 			CanonicalProfile: a.Canon,
 		}
 		if nilContainer {
 			c.SwComponents = nil
 		}
-		if a.NoMeas != nil {
-			v := uint(*a.NoMeas)
-			c.NoSwMeasurements = &v
+		if err := setNums(c); err != nil {
+			return nil, err
 		}
 		if a.HasNonce {
 			v := append([]byte{}, a.Nonces[0]...)
@@ -207,12 +210,15 @@ func Build(a *model.Claims) (psatoken.IClaims, error) {
 		return c, nil
 	}
 	c := &psatoken.P2Claims{
-		ClientID: cid, SecurityLifeCycle: lc, ImplID: cb(a.ImplID), BootSeed: cb(a.BootSeed),
+		ImplID: cb(a.ImplID), BootSeed: cb(a.BootSeed),
 		CertificationReference: cs(a.CertRef), SwComponents: ct, VSI: cs(a.VSI),
 		CanonicalProfile: a.Canon,
 	}
 	if nilContainer {
 		c.SwComponents = nil
+	}
+	if err := setNums(c); err != nil {
+		return nil, err
 	}
 	if a.Profile != nil {
 		p, err := eat.NewProfile(*a.Profile)
@@ -273,29 +279,38 @@ func SetterBuild(a *model.Claims) (psatoken.IClaims, error) {
 			t.Profile = nil
 		}
 	}
+	if err := SetterApply(c, a); err != nil {
+		return nil, err
+	}
+	return c, nil
+}
+
+// SetterApply calls, on an existing object, the setter of every claim the
+// abstract set holds.
+func SetterApply(c psatoken.IClaims, a *model.Claims) error {
 	if a.ClientID != nil {
 		if err := c.SetClientID(*a.ClientID); err != nil {
-			return nil, err
+			return err
 		}
 	}
 	if a.Lifecycle != nil {
 		if err := c.SetSecurityLifeCycle(*a.Lifecycle); err != nil {
-			return nil, err
+			return err
 		}
 	}
 	if a.ImplID != nil {
 		if err := c.SetImplID(append([]byte{}, (*a.ImplID)...)); err != nil {
-			return nil, err
+			return err
 		}
 	}
 	if a.BootSeed != nil {
 		if err := c.SetBootSeed(append([]byte{}, (*a.BootSeed)...)); err != nil {
-			return nil, err
+			return err
 		}
 	}
 	if a.CertRef != nil {
 		if err := c.SetCertificationReference(*a.CertRef); err != nil {
-			return nil, err
+			return err
 		}
 	}
 	if len(a.Comps) > 0 {
@@ -304,29 +319,29 @@ func SetterBuild(a *model.Claims) (psatoken.IClaims, error) {
 			scs = append(scs, RealComp(&a.Comps[i]))
 		}
 		if err := c.SetSoftwareComponents(scs); err != nil {
-			return nil, err
+			return err
 		}
 	} else if a.P == 1 && a.NoMeas != nil {
 		if err := c.SetSoftwareComponents(nil); err != nil {
-			return nil, err
+			return err
 		}
 	}
 	if a.HasNonce {
 		if err := c.SetNonce(append([]byte{}, a.Nonces[0]...)); err != nil {
-			return nil, err
+			return err
 		}
 	}
 	if a.InstID != nil {
 		if err := c.SetInstID(append([]byte{}, (*a.InstID)...)); err != nil {
-			return nil, err
+			return err
 		}
 	}
 	if a.VSI != nil {
 		if err := c.SetVSI(*a.VSI); err != nil {
-			return nil, err
+			return err
 		}
 	}
-	return c, nil
+	return nil
 }
 
 // Fresh returns an empty claims object of the implementation that the abstract
@@ -442,4 +457,68 @@ func AssignInPlace(x psatoken.IClaims, b *model.Claims, retained []psatoken.ISwC
 		return nil
 	}
 	return fmt.Errorf("AssignInPlace: %T and %T are not of the same base profile", x, y)
+}
+
+// ---- numeric claim fields through reflection -----------------------------------
+//
+// The numeric claims are exported pointer fields (ClientID *int32,
+// SecurityLifeCycle *uint16, NoSwMeasurements *uint). The harness assigns
+// them by reflection so that it keeps building - and keeps judging - when the
+// library changes the WIDTH of such a field.
+
+func numField(x psatoken.IClaims, name string) reflect.Value {
+	var base any
+	if p := P1Of(x); p != nil {
+		base = p
+	} else if p := P2Of(x); p != nil {
+		base = p
+	} else {
+		return reflect.Value{}
+	}
+	return reflect.ValueOf(base).Elem().FieldByName(name)
+}
+
+// SetNumField makes the pointer field `name` of x point to a NEW variable
+// holding v (converted to the field's element type). It reports whether the
+// field exists and could hold v exactly.
+func SetNumField(x psatoken.IClaims, name string, v int64) bool {
+	f := numField(x, name)
+	if !f.IsValid() || f.Kind() != reflect.Ptr {
+		return false
+	}
+	nv := reflect.New(f.Type().Elem())
+	switch nv.Elem().Kind() {
+	case reflect.Int, reflect.Int8, reflect.Int16, reflect.Int32, reflect.Int64:
+		nv.Elem().SetInt(v)
+		if nv.Elem().Int() != v {
+			return false
+		}
+	case reflect.Uint, reflect.Uint8, reflect.Uint16, reflect.Uint32, reflect.Uint64:
+		if v < 0 {
+			return false
+		}
+		nv.Elem().SetUint(uint64(v))
+		if nv.Elem().Uint() != uint64(v) {
+			return false
+		}
+	default:
+		return false
+	}
+	f.Set(nv)
+	return true
+}
+
+// NumField reads the pointer field `name` of x: (value, present).
+func NumField(x psatoken.IClaims, name string) (int64, bool) {
+	f := numField(x, name)
+	if !f.IsValid() || f.Kind() != reflect.Ptr || f.IsNil() {
+		return 0, false
+	}
+	switch e := f.Elem(); e.Kind() {
+	case reflect.Int, reflect.Int8, reflect.Int16, reflect.Int32, reflect.Int64:
+		return e.Int(), true
+	case reflect.Uint, reflect.Uint8, reflect.Uint16, reflect.Uint32, reflect.Uint64:
+		return int64(e.Uint()), true
+	}
+	return 0, false
 }
